@@ -44,8 +44,15 @@ def _worker(args):
     try:
         mod = importlib.import_module(modname)
         t0 = time.time()
+        prog = os.environ.get("VERIF_PROGRESS")
+        if prog:
+            with open(prog, "a") as fh:
+                fh.write(f"{time.strftime('%H:%M:%S')} start pid={os.getpid()} {shard!r}\n")
         res = mod.run_shard(shard, tier)
         res.counters["shard_wall_s_max"] = time.time() - t0
+        if prog:
+            with open(prog, "a") as fh:
+                fh.write(f"{time.strftime('%H:%M:%S')} done  pid={os.getpid()} {time.time() - t0:.1f}s {shard!r}\n")
         return ("ok", res)
     except BaseException:  # noqa: BLE001 - a crashing shard is a harness error
         return ("err", f"shard {shard!r}:\n{traceback.format_exc()}")
@@ -107,7 +114,17 @@ def main(argv=None):
         pool = ctx.Pool(workers, maxtasksperchild=getattr(mod, "MAXTASKS", None))
         it = pool.imap_unordered(_worker, jobs, chunksize=1)
     try:
-        for status, payload in it:
+        while done < nsh:
+            try:
+                # poll: the cap must also end a run whose remaining shards never report (a worker killed from outside loses its task)
+                status, payload = next(it) if pool is None else it.next(timeout=max(1.0, min(60.0, cap_s - (time.time() - t0) + 1.0)))
+            except StopIteration:
+                break
+            except multiprocessing.TimeoutError:
+                if time.time() - t0 > cap_s:
+                    capped = True
+                    break
+                continue
             done += 1
             if status == "ok":
                 total.merge(payload)
